@@ -147,6 +147,9 @@ def run(ctx):
     # ---- (g) round-trip table by abstract evaluation of the two functions ------------------------------------------------
     from ..absint import Interp, Raised, Unsupported, module_regex_hook
 
+    def _pos(f_, *vals):
+        return dict(zip([a.arg for a in f_.args.args], vals))
+
     it = Interp(name_hook=module_regex_hook(repo.module(RB).tree), loop_bound=256)
     wrt = f"{RB}:marshall_rebase_plan/unmarshall_rebase_plan"
     ids = [b"a", b"null:", b"joe@example.com-20240101-abcdef", b"git-v1:0123abcd", b"svn-v4:uuid:path:12", b"x#y", b"1"]
@@ -159,19 +162,19 @@ def run(ctx):
         for info in infos:
             for plan in plans:
                 it.steps = 0
-                text = it.call(fw, {"last_rev_info": info, "replace_map": plan})
+                text = it.call(fw, _pos(fw, info, plan))
                 try:
-                    back = it.call(fr, {"text": text})
+                    back = it.call(fr, _pos(fr, text))
                 except Raised as r:
                     back = ("raises", r.name)
                 if back != (info, plan) or (isinstance(back, tuple) and len(back) == 2 and isinstance(back[1], dict) and list(back[1]) != list(plan)):
                     bad.append((info, plan, text, back))
         it.steps = 0
-        good = it.call(fw, {"last_rev_info": infos[1], "replace_map": plans[1]})
+        good = it.call(fw, _pos(fw, infos[1], plans[1]))
         hdr, rest = good.split(b"\n", 1)
         other = hdr[:-1] + (b"9" if hdr[-1:] != b"9" else b"8") + b"\n" + rest
         try:
-            it.call(fr, {"text": other})
+            it.call(fr, _pos(fr, other))
             refused = False
         except Raised:
             refused = True
@@ -218,10 +221,10 @@ def run(ctx):
     st = Obj("state", transport=Obj("transport"), wt=Obj("wt", branch=Obj("branch")))
     wst = f"{RB}:RebaseState1"
 
-    def _m(meth, **kw):
+    def _m(meth, *vals):
         its.steps = 0
         try:
-            return its.call(repo.func(RB, f"RebaseState1.{meth}"), {"self": st, **kw})
+            return its.call(repo.func(RB, f"RebaseState1.{meth}"), _pos(repo.func(RB, f"RebaseState1.{meth}"), st, *vals))
         except Raised as r:
             return ("raises", r.name)
 
@@ -234,7 +237,7 @@ def run(ctx):
         for info in infos:
             cur_info[0] = info
             for plan in plans[:12]:
-                _m("write_plan", replace_map=plan)
+                _m("write_plan", plan)
                 if _m("has_plan") is not True:
                     sbad.append(f"has_plan() is not True after write_plan({plan!r})")
                 got = _m("read_plan")
@@ -246,10 +249,10 @@ def run(ctx):
         if _m("read_plan") != ("raises", "NoSuchFile"):
             sbad.append("read_plan() after remove_plan() does not raise NoSuchFile")
         for r_ in ids[2:5]:
-            _m("write_active_revid", revid=r_)
+            _m("write_active_revid", r_)
             if _m("read_active_revid") != r_:
                 sbad.append(f"read_active_revid() after write_active_revid({r_!r}) gives {_m('read_active_revid')!r}")
-        _m("write_active_revid", revid=None)
+        _m("write_active_revid", None)
         if _m("read_active_revid") is not None:
             sbad.append("read_active_revid() is not None after write_active_revid(None)")
         if len({n_ for n_ in files}) != 2:
